@@ -142,6 +142,7 @@ mod vk_cloned {
         y.counter().store(c);
         assert!(x.try_get_len() == y.try_get_len(), "[C13 same-len] same remaining length as the underlying iterator");
         assert!(x.has_more() == y.has_more(), "[C13 same-len] same has_more as the underlying iterator");
+        { use crate::iter::atomic_iter::AtomicIterWithInitialLen; assert!(x.initial_len() == y.initial_len() && y.initial_len() == len, "[C13 C11 same-initial-len] same initial length as the underlying iterator"); }
         let op: u8 = kani::any();
         kani::assume(op < 2);
         if op == 0 {
